@@ -359,6 +359,11 @@ def shard_history(ctx, payload):
             # a non-tabulated distance on the same grader, through any of the three entry points
             step = {'kind': 'odd', 'entry': rng.choice(['best', 'factor', 'grade']), 'year': year, 'g': g,
                     'code': rng.choice(odd), 'age': rng.choice([35, 50, 72.5])}
+            if rng.randrange(3) == 0:
+                # a call that RAISES (unknown event, gender or age): an error path must not disturb later answers either
+                step.update(rng.choice([{'code': 'NOPE'}, {'code': ''}, {'g': 'x'}, {'age': 3}, {'age': -1}, {'age': 'old'},
+                                        {'code': '0'}, {'code': 'HJ 2'}, {'g': ''}]))
+                ctx.label('interleaved-raising-calls')
             run_odd(step)
             hist.append(step)
             ctx.count()
